@@ -140,7 +140,8 @@ func KeyPool(r *rand.Rand, n int) []string {
 				add(base + mk(36*(1+r.IntN(6)), 3))
 			}
 		case 6:
-			add(pick(r, []string{".", "..", "/", "#", "\x00", "a/b", "../x", "_", "-", "Xw", "http://a.example/#0", "http://a.example/", "http://a.example/#18446744073709551615"}))
+			add(pick(r, []string{".", "..", "/", "#", "\x00", "a/b", "../x", "_", "-", "Xw", "http://a.example/#0", "http://a.example/", "http://a.example/#18446744073709551615",
+				"http://a.example/s?q=a%20b#0", "http://a.example/s?q=a b#0", "%41", "A", "a%2Fb", "a/b", "%25", "%", "%2541", "caf\xe9", "caf\xc3\xa9", "caf%E9", "q=\xef\xbf\xbd", "q=\xff"}))
 		case 7:
 			if len(keys) > 0 {
 				k := pick(r, keys)
